@@ -1,7 +1,7 @@
 (** C16 — connection IDs: limits honoured both ways, retirements reported, routing clean.
     Only statements live here; each is closed by [exact] of a lemma proved in ConnIDs/. *)
 From Coq Require Import List ZArith Bool.
-From V Require Import Gen.Params Lib.Hex ConnIDs.Model ConnIDs.ProofsGen ConnIDs.ProofsMgr ConnIDs.ProofsMgr2 ConnIDs.ProofsMgr3 ConnIDs.ProofsMgr4 ConnIDs.Routing ConnIDs.ProofsRouting.
+From V Require Import Gen.Params Lib.Hex ConnIDs.Model ConnIDs.ProofsGen ConnIDs.ProofsMgr ConnIDs.ProofsMgr2 ConnIDs.ProofsMgr3 ConnIDs.ProofsMgr4 ConnIDs.Routing ConnIDs.ProofsRouting ConnIDs.GenRoute ConnIDs.ProofsGenRoute.
 Import ListNotations.
 Open Scope Z_scope.
 
@@ -291,6 +291,41 @@ Theorem C16_remote_closed_silent : forall s c size,
   hget c (rt_handlers s) = Some HRemote -> rr_sent (snd (rt_step (RDeliver c size) s)) = 0.
 Proof. exact remote_closed_silent. Qed.
 Print Assumptions C16_remote_closed_silent.
+
+(** Round 4 - generator and routing table composed as connection.go wires them ([gr_step]: every
+    callback of a generator call reaches the table; the transport registered the first IDs).
+    (d) For every history of a live connection (generated IDs not already known to the
+    generator, time passing) the table routes to the connection exactly the pairwise distinct IDs
+    the generator knows - client's original destination ID until expiry, active IDs, retired
+    unexpired IDs - nothing else, no timer pending. *)
+Theorem C16_connection_routes_exact : forall i cd l0 ops s,
+  cd <> Some i -> gr_reach i cd l0 ops s ->
+  NoDup (gen_all_ids (fst s)) /\ rt_timers (snd s) = [] /\
+  forall c, hget c (rt_handlers (snd s)) = if cin c (gen_all_ids (fst s)) then Some (HConn 1) else None.
+Proof. exact gr_routes_exact. Qed.
+Print Assumptions C16_connection_routes_exact.
+
+(** (e) Closing, whatever is still waiting for its expiry: RemoveAll leaves nothing of the
+    connection in the table; ReplaceWithClosed maps every one of its IDs to the closed stand-in
+    and after the closing period the table holds nothing of it and no timer is pending. *)
+Theorem C16_connection_cleanup : forall i cd l0 ops s,
+  cd <> Some i -> gr_reach i cd l0 ops s ->
+  (let s1 := fst (gr_step (GROp GRemoveAll) s) in
+   rt_timers (snd s1) = [] /\ forall c, hget c (rt_handlers (snd s1)) = None) /\
+  (forall loc ex d, 0 < ex -> ex <= d ->
+   let s1 := fst (gr_step (GROp (GReplaceClosed loc ex)) s) in
+   (forall c, hget c (rt_handlers (snd s1)) =
+      if cin c (gen_all_ids (fst s)) then Some (if loc then HLocal (rt_nlocal (snd s)) else HRemote) else None) /\
+   let s2 := fst (gr_step (GRAdvance d) s1) in
+   rt_timers (snd s2) = [] /\ forall c, hget c (rt_handlers (snd s2)) = None).
+Proof. exact gr_cleanup. Qed.
+Print Assumptions C16_connection_cleanup.
+
+Example C16_connection_history_nonvacuous :
+  exists s, gr_reach [1] (Some [2]) false
+    [GRAdvance 5; GROp (GRetire 1 [1] 20 [Some [4]]); GROp (GHsDone 10); GROp (GSetMax 2 [Some [3]])] s /\ Some [2] <> Some [1].
+Proof. exact gr_reach_example. Qed.
+Print Assumptions C16_connection_history_nonvacuous.
 
 (** Non-vacuity: a 13-operation history with reordering, Retire Prior To, rotation, path
     probing and a harmless retransmission satisfies the hypotheses of (b), (c), (d). *)
